@@ -42,6 +42,8 @@ def run(repo, rep):
     _memo_rule(repo, rep, 'C14', 'C14.Z1')
     from ..pitfalls import log_rule as _log_rule
     _log_rule(repo, rep, 'C14', 'C14.Z2')
+    from ..api_pitfalls import truth_rule as _truth_rule
+    _truth_rule(repo, rep, 'C14', 'C14.Z4', extra_modules=('dulprovider',))
     hier = exc_hierarchy(repo)
     acc = repo.cls('asceprovider', 'AssociationAcceptor')
     base = repo.cls('asceprovider', 'Association')
